@@ -25,7 +25,14 @@ type PropConfig struct {
 	AxCheck    []string          `json:"axcheck"` // spec files whose axioms are validated (bounded) against the real library on every run
 }
 
-const verifDir = "/verif"
+// verifDir: where specs, props.json, known_findings.json, evidence and out/ live. GOVC_VERIF_DIR redirects all of them to a
+// development copy (used to try engine or spec changes while a corpus run is using /verif); registered commands never set it.
+var verifDir = func() string {
+	if d := os.Getenv("GOVC_VERIF_DIR"); d != "" {
+		return d
+	}
+	return "/verif"
+}()
 
 func main() {
 	prop := flag.String("prop", "", "property id")
